@@ -12,9 +12,12 @@
    26 C13_guard     same directory (any spelling / symlink) must be refused and nothing written
    27 C13_frame     source files byte-identical, only temp_wh.dat deleted, only the three subset files added (iff raw data);
                     when the source directory itself was named as the target: nothing changed, deleted or added at all
-   28 C13_dtypes    spikes.clusters / spikes.templates stored as uint16 with unchanged values *)
+   28 C13_dtypes    spikes.clusters / spikes.templates stored as uint16 with unchanged values
+   Inputs: InConvert (the stated regime: every clause is judged), InBeyond (ONE step outside the statement -- an id
+   >= 65536, sparse templates: model equality only, code 1, never a clause), InCompress (compress_spikes_dtypes called
+   on a bare directory: the model compress_first twice, and clause 28 when every id is below 65536). *)
 From Coq Require Import ZArith List Bool String Ascii.
-From PV Require Export Base.Tok Base.TokArith Base.FloatTok C04.Model C13.Model C13.Spec.
+From PV Require Export Base.Tok Base.TokArith Base.FloatTok C04.Model C13.Model C13.Spec C13.Fast.
 Import ListNotations.
 Open Scope string_scope.
 Open Scope list_scope.
@@ -34,13 +37,19 @@ Record obsrec := mkobs {
   ob_new_other : list string;      (* other new files of the source directory *)
   ob_rl : reloaded                 (* the TemplateModel of the output directory *)
 }.
-Inductive input := InConvert (i : inp).
+Inductive input :=
+| InConvert (i : inp)
+| InBeyond (i : inp)               (* outside the statement's regime: compared with the model only *)
+| InCompress (fs : files).         (* compress_spikes_dtypes on a directory holding these .npy files *)
 Inductive observed :=
 | ObsConverted (o : obsrec)
 | ObsRefused (untouched : bool)                            (* IOError "cannot be the same"; source + its parent untouched? *)
 | ObsNotRefused (changed deleted new_names : list string)  (* the source directory was the target and convert() did NOT
                                                               refuse (it completed, or crashed later): what happened to
                                                               the pre-existing source files / which entries appeared *)
+| ObsCrashed (changed deleted new_names : list string)     (* a fresh target, convert() raised: what happened to the source *)
+| ObsCompressed (fs : files)       (* the directory after compress_spikes_dtypes *)
+| ObsStop                          (* StopIteration: no file matched *)
 | ObsCrash.
 Record case := { cid : Z; cin : input; cobs : observed }.
 
@@ -123,7 +132,7 @@ Definition spec_units (i : inp) (src : files) (L : string) (o : obsrec) : bool :
 
 Definition spec_uuids (m : loaded) (L : string) (o : obsrec) : bool :=
   match lookup (relabel L "clusters.uuids.csv") (ob_txt o) with
-  | Some (TUuids l) => uuids_b (n_clu m) l
+  | Some (TUuids l) => uuids_fast (n_clu m) l           (* = uuids_b (Fast.uuids_fast_eq), linear on 0 .. n-1 *)
   | _ => false end.
 
 Definition spec_roundtrip (m : loaded) (o : obsrec) : bool :=
@@ -153,10 +162,81 @@ Definition spec_label (L : string) (o : obsrec) : bool :=
 
 Definition nil_b {A} (l : list A) : bool := match l with [] => true | _ => false end.
 
+(* the frame of the source when a conversion to a FRESH target raised part-way: nothing changed, nothing deleted but
+   temp_wh.dat, nothing added but the subset files (and these only with raw data) *)
+Definition frame_partial_b (has_raw : bool) (changed deleted new_names : list string) : bool :=
+  nil_b changed && subset_of deleted FILE_DELETES && subset_of new_names (if has_raw then SUBSET else []).
+
+(* everything compared with the model: output directory, source directory afterwards, the read-back *)
+Definition model_eq (i : inp) (src : files) (ci : conv_in) (o : obsrec) : option (conv_out * option bool) :=
+  match convert (oracle_of (ci_label ci) o) ci with
+  | CErr _ => None
+  | COk r =>
+      (* the directory convert() leaves: what it wrote, plus what the read-back load creates when params.py
+         was copied (whitening_mat_inv.npy, C04_frame) *)
+      let reload := loadc i (fun _ => match lookup "whitening_mat_inv.npy" (ob_npy o) with Some a => a | None => mkarr DF64 [] [] end)
+                          (co_npy r) in
+      match reload with
+      | Err _ => Some (r, None)               (* the loader model refuses the written directory *)
+      | Ok m2 =>
+          let exp_npy := co_npy r ++ (if has "params.py" (co_txt r) then l_created m2 else []) in
+          let g_out := dir_eqb arr_eqb exp_npy (ob_npy o) && dir_eqb text_eqb (co_txt r) (ob_txt o) &&
+                       forallb (fun kv => arr_wf (snd kv)) (ob_npy o) in
+          let g_src := dir_eqb arr_eqb (co_src r) (src ++ ob_new o) &&
+                       dir_eqb Z.eqb (co_others r)
+                               (filter (fun kv => negb (str_in (fst kv) (ob_deleted o))) (i_others i)) &&
+                       nil_b (ob_new_other o) in
+          let g_rl := arr_eqb (r_samples (ob_rl o)) (l_samples m2) && arr_eqb (r_times (ob_rl o)) (l_times m2) &&
+                      arr_eqb (r_sclusters (ob_rl o)) (l_sclusters m2) && arr_eqb (r_stemplates (ob_rl o)) (l_stemplates m2) &&
+                      arr_eqb (r_cmap (ob_rl o)) (l_cmap m2) && arr_eqb (r_pos (ob_rl o)) (l_pos m2) in
+          Some (r, Some (g_out && g_src && g_rl))
+      end
+  end.
+
+(* compress_spikes_dtypes alone: for attribute in ['templates', 'clusters'] *)
+Definition compress_model (fs : files) : option files :=
+  match compress_first "spikes.templates." fs with
+  | None => None
+  | Some f2 => compress_first "spikes.clusters." f2
+  end.
+(* clause 28 on a bare directory: every file the two globs select is uint16 afterwards with unchanged ids < 65536 *)
+Definition compress_spec (fs out : files) : bool :=
+  forallb (fun kv =>
+             if glob1 "spikes.templates." "npy" (fst kv) || glob1 "spikes.clusters." "npy" (fst kv)
+             then negb (ids_ok (snd kv)) ||
+                  match lookup (fst kv) out with
+                  | Some a => dt_eqb (a_dt a) DU16 && zl_eqb (a_shape a) (a_shape (snd kv)) && tl_eqb (a_data a) (a_data (snd kv))
+                  | None => false end
+             else true) fs.
+
 (* Code 3 is decided from the abstract input alone (file list, rate, label, "same directory", raw data), BEFORE the
    observation is looked at: whatever the implementation does with an in-regime input is judged. *)
 Definition check (c : case) : list Z :=
-  match cin c with InConvert i =>
+  match cin c with
+  | InCompress fs =>
+      if negb (str_nodup (names fs) && forallb (fun kv => arr_wf (snd kv) && int_toks (snd kv)) fs &&
+               Nat.leb (List.length (filter (fun kv => glob1 "spikes.templates." "npy" (fst kv)) fs)) 1 &&
+               Nat.leb (List.length (filter (fun kv => glob1 "spikes.clusters." "npy" (fst kv)) fs)) 1) then [3] else
+      match compress_model fs, cobs c with
+      | None, ObsStop => []
+      | Some exp, ObsCompressed out => flag 1 (dir_eqb arr_eqb exp out) ++ flag 28 (compress_spec fs out)
+      | _, _ => [1; 20]
+      end
+  | InBeyond i =>
+      if negb (forallb (fun p => Nat.leb (n_matches p (i_src i)) 1) all_patterns) then [3] else
+      match norm_src i with
+      | None => [3]
+      | Some (src, m) =>
+          if i_same i then [3] else
+          let ci := mkci m src (i_others i) (i_has_raw i) false (i_label i) in
+          match convert dummy_oracle ci, cobs c with
+          | CErr _, ObsCrashed _ _ _ => []         (* the model's error exit: the implementation raised *)
+          | CErr _, ObsCrash => []
+          | COk _, ObsConverted o => match model_eq i src ci o with Some (_, Some true) => [] | _ => [1] end
+          | _, _ => [1]
+          end
+      end
+  | InConvert i =>
   if negb (forallb (fun p => Nat.leb (n_matches p (i_src i)) 1) all_patterns) then [3] else
   match norm_src i with
   | None => [3]
@@ -179,28 +259,13 @@ Definition check (c : case) : list Z :=
     | ObsRefused _ => [1; 20]
     | ObsNotRefused _ _ _ => [1; 20]
     | ObsCrash => [1; 20]
+    | ObsCrashed ch de nw => [1; 20] ++ flag 27 (frame_partial_b (i_has_raw i) ch de nw)
+    | ObsCompressed _ | ObsStop => [1; 20]
     | ObsConverted o =>
-      let orc := oracle_of L o in
-      match convert orc ci with
-      | CErr _ => [1]
-      | COk r =>
-        (* the directory convert() leaves: what it wrote, plus what the read-back load creates when params.py
-           was copied (whitening_mat_inv.npy, C04_frame) *)
-        let reload := loadc i (fun _ => match lookup "whitening_mat_inv.npy" (ob_npy o) with Some a => a | None => mkarr DF64 [] [] end)
-                            (co_npy r) in
-        match reload with
-        | Err _ => [1; 25]
-        | Ok m2 =>
-          let exp_npy := co_npy r ++ (if has "params.py" (co_txt r) then l_created m2 else []) in
-          let g_out := dir_eqb arr_eqb exp_npy (ob_npy o) && dir_eqb text_eqb (co_txt r) (ob_txt o) &&
-                       forallb (fun kv => arr_wf (snd kv)) (ob_npy o) in
-          let g_src := dir_eqb arr_eqb (co_src r) (src ++ ob_new o) &&
-                       dir_eqb Z.eqb (co_others r)
-                               (filter (fun kv => negb (str_in (fst kv) (ob_deleted o))) (i_others i)) &&
-                       nil_b (ob_new_other o) in
-          let g_rl := arr_eqb (r_samples (ob_rl o)) (l_samples m2) && arr_eqb (r_times (ob_rl o)) (l_times m2) &&
-                      arr_eqb (r_sclusters (ob_rl o)) (l_sclusters m2) && arr_eqb (r_stemplates (ob_rl o)) (l_stemplates m2) &&
-                      arr_eqb (r_cmap (ob_rl o)) (l_cmap m2) && arr_eqb (r_pos (ob_rl o)) (l_pos m2) in
+      match model_eq i src ci o with
+      | None => [1]
+      | Some (_, None) => [1; 25]
+      | Some (r, Some g) =>
           let s21 := spec_rows m L o in
           let s22 := spec_units i src L o in
           let s23 := spec_label L o in
@@ -208,9 +273,8 @@ Definition check (c : case) : list Z :=
           let s25 := spec_roundtrip m o in
           let s27 := spec_frame i o in
           let s28 := spec_dtypes src L o in
-          flag 1 (g_out && g_src && g_rl) ++ flag 21 s21 ++ flag 22 s22 ++ flag 23 s23 ++ flag 24 s24 ++
+          flag 1 g ++ flag 21 s21 ++ flag 22 s22 ++ flag 23 s23 ++ flag 24 s24 ++
           flag 25 s25 ++ flag 27 s27 ++ flag 28 s28
-        end
       end
     end
     end
